@@ -350,12 +350,33 @@ func RunC02(t *testing.T, spec kernel.Spec) *kernel.Outcome {
 	o := inBubble(t, spec, func(o *kernel.Outcome, tape *kernel.Tape) {
 		cfg := tape.Sub("cfg02")
 		caps := world.Caps{ClientCredentials: true, TokenExchange: true, Device: true}
-		w, err := world.NewStd(o, tape, world.StdOptions{Router: spec.Params["router"], ForceCaps: &caps, AllGrants: true, NoCustomClaims: true, ForceConfig: func(c *op.Config) {
+		// a third of the providers are given a separate key set for access tokens (their own keys plus key x of another
+		// token service) and none for hints: hints are then still checked with the provider's own keys only
+		var atKS *extraKeySet
+		var opts []op.Option
+		if tape.Sub("cfg-keysets").Bool(1, 3) {
+			atKS = &extraKeySet{}
+			opts = append(opts, op.WithAccessTokenKeySet(atKS))
+		}
+		w, err := world.NewStd(o, tape, world.StdOptions{Router: spec.Params["router"], ForceCaps: &caps, AllGrants: true, NoCustomClaims: true, Options: opts, ForceConfig: func(c *op.Config) {
 			c.AuthMethodPrivateKeyJWT, c.RequestObjectSupported, c.GrantTypeRefreshToken = true, true, true
 		}})
 		if err != nil {
 			o.Infra = "world: " + err.Error()
 			return
+		}
+		if atKS != nil {
+			// the provider's current key, the keys of the key-set shapes, the rotation and the stranger are fixtures
+			// KeyN .. KeyN+3: x is another one (families with too few fixtures go without the option's extra key)
+			atKS.store = w.Store
+			if free := world.UnusedFixtureKeys(w.AlgPrefix, w.KeyN, 4); len(free) > 0 {
+				atKS.extra = free[0]
+				atKS.extra.KeyID = "x-1"
+				o.Probe("separate-access-token-keyset")
+			} else {
+				atKS.extra.KeyID = "x-none"
+				atKS = nil
+			}
 		}
 		c := &c02{w: w, o: o}
 		// key-set shape of the provider
@@ -594,6 +615,22 @@ func RunC02(t *testing.T, spec kernel.Spec) *kernel.Outcome {
 						c.viol("ambiguity-guessed", "kidless/history", "a token without kid signed by the %s of two published %s keys was accepted (%s a kid-less token of the other key type was verified on the same key set)", name, w.SigAlg, map[int]string{0: "before", 1: "right after"}[round])
 					}
 				}
+			}
+		}
+		// a hint signed by the key that only the access-token key set knows: a key trusted for one kind of token is not a
+		// trusted key for another kind
+		id++
+		if atKS != nil && (!o.Spec.KeepSet || containsInt(o.Spec.Keep, id)) {
+			c.step = id
+			o.StepIDs = append(o.StepIDs, id)
+			o.Steps++
+			_, p, _ := splitJWT(s.tokens.IDToken)
+			byX := signWith(dec(p), cur.Alg, atKS.extra.Key, "x-1", nil)
+			o.Fault("other-keyset")
+			if accepted, sub, _ := surfaces[2].deliver(byX); accepted {
+				c.viol("forged-accepted", surfaces[2].surface+"/signed-by-a-key-of-the-access-token-keyset", "an ID token hint signed with key x-1, which the operator added to the ACCESS-TOKEN key set only, was believed; subject %q", sub)
+			} else {
+				o.Probe("tampered-rejected")
 			}
 		}
 		// epilogue (a history, not a single token): the provider rotates its key and retires the old one. The
